@@ -1,33 +1,212 @@
 """C33 -- Printing a syntax tree and parsing it gives the same tree."""
 import re
+import struct
 
 from vplib import common, oracle, gentree
 
 LEVEL = "proof"
-RULE = ("Coq: Properties/C33.v (parse_print_partial: round trip for the operator/parenthesis expression fragment, all trees). "
-        "Dynamic: grammar-directed generation of syntax TREES over the whole grammar (definitions: fun/method/test/enum/struct/"
-        "import with type parameters, hints, visibility; statements: let incl. destructuring and hints, assign, update, if/else, "
-        "while, for, break, continue, return, match, assert; expressions: literals, variables, all 21 operators left-nested, "
-        "explicit parentheses, calls, method calls, field access, list/tuple/dict/struct literals, closures), each printed to "
-        "canonical source text by an independent printer and parsed by the REAL parser (hook op sexp); the parse must have no "
-        "errors and yield exactly the generated tree. Non-trivial = tree with at least 8 nodes.")
+RULE = ("Coq: Properties/C33.v. parse_print_full_partial: for EVERY tree t of the model grammar ParseFull.v with wf_item t "
+        "(definitions fun/method/test/enum/struct/import/toplevel expression/toplevel block; statements let incl. destructuring "
+        "and hints, assignment, += and -=, return, if/else, while, for, break, continue, match, assert, blocks; expressions "
+        "int/float/string literals, variables, 21 operators left-nested, parentheses, tuples, lists, calls, method calls, field "
+        "access, closures; type hints), the model printer's token text parses, with the model of parser.rs, back to t with "
+        "nothing left over; parse_print_partial: the same for the old operator/parenthesis fragment (ParseExpr.v); "
+        "method_space_refuted: the code before the fix fails on the block `a.b NEWLINE (c)`. "
+        "Tie: (a) tools/gen_parser.py regenerates the operator table, the shape of the infix arm and the facts "
+        "method_paren_touches / call_paren_touches / return_needs_same_line / assignment_decided_by_second_token / keyword_count "
+        "from parser.rs (Theorem full_facts); (b) correspondence: for generated source texts, the REAL lexer's tokens (hook op "
+        "lex; kind and spacing to the previous token) are parsed by the EXTRACTED model parser (op parsefull) and by the REAL "
+        "parser (hook op sexp): whenever the model accepts, the real parser must report no error and the same tree; the model may "
+        "answer none only for texts that use an unmodelled construct (Dict literal, struct literal, try, ::) or that the real "
+        "parser rejects; this is also run on token-level mutations (dropped/duplicated/swapped tokens, changed spacing) of the "
+        "generated texts; and the model printer applied to the parsed tree must reproduce the token stream (kinds and spacing) "
+        "of the generator's canonical text. Search: grammar-directed generation of syntax TREES over the whole grammar incl. the "
+        "unmodelled constructs, each printed by the independent printer of gentree.py and parsed by the REAL parser: no errors "
+        "and exactly the generated tree. Non-trivial = tree with at least 8 nodes.")
 META = {
-    "technique": "Coq round-trip proof for the expression-chain fragment + grammar-directed tree generation checked against the real parser",
-    "level_text": ("Coq theorem parse_print_partial: every tree of the operator/parenthesis fragment (any nesting, all 21 "
-                   "operators) prints to a token text that the expression loop of parser.rs (shape regenerated from the source) "
-                   "parses back to the same tree. PARTIAL: the rest of the grammar is not modelled; it is covered by generating "
-                   "trees over the whole grammar and checking print-then-parse on the real parser."),
-    "level_note": ("Trusted: Coq kernel; tools/gen_parser.py; ParseExpr.v (hand-written loop model); for the search part the "
-                   "independent printer tools/vplib/gentree.py defines what 'canonical source text' means (Garden has no "
-                   "pretty-printer of its own). Toplevel expression statements beginning with the keyword `fun` are read as "
-                   "definitions by design and are not generated."),
+    "technique": ("Coq round-trip proof over a model of the whole parser (definitions, statements, expressions, hints) + extracted "
+                  "model parser vs real parser on the real lexer's tokens + grammar-directed tree generation against the real parser"),
+    "level_text": ("Coq theorem parse_print_full_partial: every syntax tree of the model grammar that satisfies wf_item -- "
+                   "definitions (fun, method, test, enum, struct, import, toplevel expression and block, with public, type "
+                   "parameters, parameter/return/field/payload type hints), statements (let with symbol or destructuring "
+                   "destination and optional hint, =, +=, -=, return with/without value, if/else, while, for-in, break, continue, "
+                   "match with `V` and `V(dest)` cases, assert, blocks) and expressions (integer, float and string literal tokens, "
+                   "variables, all 21 infix operators, explicit parentheses, tuples incl. () and (a,), lists, calls, method calls, "
+                   "field access, closures), with any nesting -- prints to a token text (token kind + spacing: glued / same line / "
+                   "new line) that the model of parser.rs parses back to exactly that tree. wf_item only excludes trees that need "
+                   "an explicit Parentheses node or that the parser rejects (repeated parameter names). PARTIAL: Dict literals, "
+                   "struct literals, try/catch, `::`, doc comments, the parser's error-recovery paths and the lexer are not in the "
+                   "theorem; tokens are abstract. The model is tied to parser.rs by regenerated facts (operator table, infix-arm "
+                   "shape, method/call parenthesis rule, return rule, assignment lookahead, keyword count) and by running the "
+                   "extracted model parser against the real parser on the real lexer's tokens (generated texts and mutations). "
+                   "The rest of the grammar is covered by generating trees and checking print-then-parse on the real parser."),
+    "level_note": ("Trusted: Coq kernel; tools/gen_parser.py; ParseFull.v / ParseExpr.v (hand-written models, checked against the "
+                   "real parser on every run); ocaml/ops_parsefull.ml and the token encoder in this file; for the search part "
+                   "the independent printer tools/vplib/gentree.py defines what 'canonical source text' means (Garden has no "
+                   "pretty-printer of its own); the model printer is checked to produce the same tokens. Toplevel expression "
+                   "statements beginning with the keyword `fun` are read as definitions by design and are not generated."),
     "design_ref": "DESIGN.md section 5 C33",
 }
 
+KEYWORDS = ["let", "fun", "enum", "struct", "import", "if", "else", "while", "return", "test", "match", "break", "continue",
+            "for", "in", "assert", "as", "method", "public", "shared", "try", "catch"]
+PUNCT = {"(": "LP", ")": "RP", "[": "LB", "]": "RB", "{": "LC", "}": "RC", ",": "CM", ".": "DT", "::": "CC", "=": "EQ",
+         "+=": "PE", "-=": "ME", "=>": "AR", ":": "CL"}
+SYMBOL_RE = re.compile(r"[a-zA-Z_][a-zA-Z0-9_]*\Z")
+FLOAT_RE = re.compile(r"-?[0-9][0-9_]*\.[0-9][0-9_]*\Z")
+INTEGER_RE = re.compile(r"-?[0-9][0-9_]*\Z")
+# constructs that ParseFull.v does not model (its parser answers none)
+UNMODELLED = re.compile(r"\b(Dict|Tuple|try|catch|__placeholder|__keyword_placeholder)\b|::|[A-Za-z0-9_]\{")
+
+
+def str_display(raw):
+    """quote(unescape(raw)) as in src/parser.rs unescape_string + src/verif_hooks.rs quote; None when unescaping reports a
+    diagnostic or the literal is not closed"""
+    if len(raw) < 2 or not raw.endswith('"'):
+        return None
+    s = raw[1:-1]
+    out, i = [], 0
+    while i < len(s):
+        c = s[i]
+        if c == "\\":
+            m = {"n": "\n", "t": "\t", "\\": "\\", '"': '"'}.get(s[i + 1] if i + 1 < len(s) else None)
+            if m is None:
+                return None
+            out.append(m)
+            i += 2
+        else:
+            if c == '"':
+                return None
+            out.append(c)
+            i += 1
+    u = "".join(out)
+    return '"' + u.replace("\\", "\\\\").replace('"', '\\"').replace("\n", "\\n") + '"'
+
+
+def encode_tokens(toks):
+    """tokens of the hook op `lex` -> token words of the model op `parsefull` (kind + spacing to the previous token)"""
+    words, prev = [], None
+    for t in toks:
+        text, pos = t["text"], t["pos"]
+        if prev is None:
+            sp = "s"
+        elif pos[0] == prev[1]:
+            sp = "g"                    # starts where the previous token ends
+        elif pos[2] != prev[3]:
+            sp = "n"                    # starts on another line than the previous token ends
+        else:
+            sp = "s"
+        prev = pos
+        if text in PUNCT:
+            w = PUNCT[text]
+        elif text in KEYWORDS:
+            w = "k" + text
+        elif text == "Dict":
+            w = "D"
+        elif text in ("Tuple", "__placeholder", "__keyword_placeholder"):
+            w = "X"
+        elif SYMBOL_RE.match(text):
+            w = "y" + common.hexs(text)
+        elif text.startswith('"'):
+            d = str_display(text)
+            w = "X" if d is None else "q" + common.hexs(d)
+        elif FLOAT_RE.match(text):
+            # the sexp shows the bits of the parsed f64
+            w = "f" + common.hexs("%016x" % struct.unpack("<Q", struct.pack("<d", float(text.replace("_", ""))))[0])
+        elif INTEGER_RE.match(text):
+            v = int(text.replace("_", ""))
+            w = ("i%d" % v) if -2 ** 63 <= v < 2 ** 63 else "X"
+        else:
+            w = "o" + common.hexs(text)
+        words.append(sp + w)
+    return words
+
+
+def mutate(rng, src, toks):
+    """a token-level mutation of a source text, re-rendered with explicit spacing"""
+    if len(toks) < 2:
+        return src
+    parts = []
+    prev = None
+    for t in toks:
+        pos = t["pos"]
+        sep = "" if prev is None else ("" if pos[0] == prev[1] else ("\n" if pos[2] != prev[3] else " "))
+        parts.append([sep, t["text"]])
+        prev = pos
+    k = rng.randrange(6)
+    i = rng.randrange(len(parts))
+    if k == 0:
+        del parts[i]
+    elif k == 1:
+        parts.insert(i, [" ", parts[i][1]])
+    elif k == 2 and i + 1 < len(parts):
+        parts[i][1], parts[i + 1][1] = parts[i + 1][1], parts[i][1]
+    elif k == 3:
+        parts[i][0] = rng.choice(["", " ", "\n"]) if i else ""
+    elif k == 4:
+        parts.insert(i, [" ", rng.choice(["(", ")", ",", ".", "=", "{", "}", "+", "return", "else", "fun", "x", "1", "=>", ":", "<", "["])])
+    else:
+        parts[i][1] = rng.choice(["(", ")", ",", ".", "=", "{", "}", "-", "let", "if", "y", "-2", "in", "]"])
+    return "".join(a + b for a, b in parts)
+
+
+def correspondence(ctx, exe, drv, rng, srcs, sexps):
+    """extracted model parser (on the real lexer's tokens) vs the real parser"""
+    n0 = len(srcs)
+    lx0 = oracle.batch(exe, [{"op": "lex", "src": s} for s in srcs])
+    muts = [mutate(rng, s, l.get("tokens", [])) for s, l in zip(srcs, lx0) for _ in range(2)]
+    lx1 = oracle.batch(exe, [{"op": "lex", "src": s} for s in muts])
+    sx1 = oracle.batch(exe, [{"op": "sexp", "src": s} for s in muts])
+    all_src = srcs + muts
+    all_lex = lx0 + lx1
+    all_sx = sexps + sx1
+    lines = ["parsefull\t" + " ".join(encode_tokens(l.get("tokens", []))) for l in all_lex]
+    rc, res, err = common.run_lines(drv, [], lines, shards=16)
+    bad = 0
+    for idx, (src, l, s, r) in enumerate(zip(all_src, all_lex, all_sx, res)):
+        canonical = idx < n0
+        if "panic" in s or "panic" in l:
+            continue                                  # reported by the search part (canonical) / not a C33 matter (mutation)
+        real = [re.sub(r" #unused", "", x) for x in s.get("items", [])]
+        errs = bool(s.get("errors")) or bool(l.get("errors"))
+        f = r.split("\t")
+        if f[0] == "ok":
+            got = f[1].split("\x1f") if f[1] else []
+            ctx.stat("model accepts" + ("" if canonical else " (mutation)"))
+            if errs or got != real:
+                bad += 1
+                if bad <= 5:
+                    ctx.broken("correspondence:parsefull", "model parser and real parser disagree on %r: model %s, real %s errors %s"
+                               % (src, got, real, s.get("errors", [])[:1]))
+            elif canonical:
+                if f[2] != "1":
+                    ctx.stat("model tree outside wf_item")
+                if f[3] != "1":
+                    bad += 1
+                    if bad <= 5:
+                        ctx.broken("correspondence:parsefull-print", "the model printer does not reproduce the tokens of the "
+                                   "canonical text %r" % src)
+                if f[2] == "1" and f[3] == "1":
+                    ctx.stat("canonical text in the proved domain")
+        elif f[0] == "none":
+            if not errs and not UNMODELLED.search(src) and l.get("tokens"):
+                bad += 1
+                if bad <= 5:
+                    ctx.broken("correspondence:parsefull", "model parser answers none on %r, which the real parser accepts and "
+                               "which uses no unmodelled construct" % src)
+            else:
+                ctx.stat("model none: " + ("real parser reports errors" if errs else "unmodelled construct or empty"))
+        else:
+            bad += 1
+            if bad <= 5:
+                ctx.broken("correspondence:parsefull", "model driver: %s on %r" % (r[:200], src))
+
 
 def run(ctx):
-    ctx.trusted = ["Coq 8.16.1 kernel", "tools/gen_parser.py", "coq/ParseExpr.v", "tools/vplib/gentree.py (printer = definition of canonical text)",
-                   "hook op sexp (prints the implementation's own AST)"]
+    ctx.trusted = ["Coq 8.16.1 kernel", "tools/gen_parser.py", "coq/ParseFull.v", "coq/ParseExpr.v",
+                   "ocaml/ops_parsefull.ml + token encoder of tools/props/C33.py",
+                   "tools/vplib/gentree.py (printer = definition of canonical text)",
+                   "hook ops sexp (prints the implementation's own AST) and lex"]
     ctx.coq("Properties/C33.v")
     exe = ctx.impl()
     if not exe:
@@ -38,6 +217,35 @@ def run(ctx):
     for i in range(n):
         g = gentree.G(rng, maxd=2 + (i % 3))
         cases.append(g.item())
+    # directed: a statement that ends with a field access followed by a statement that starts with `(` (the two
+    # must stay two statements: a method call's parenthesis has to touch the method name), also after `let`/`return`
+    for i in range(n // 20):
+        g = gentree.G(rng, maxd=2)
+        r, f, e = g.operand(1), g.pick(gentree.NAMES), g.expr(1)
+        first = [("%s.%s" % (r[0], f), "(dot %s (sym %s))" % (r[1], f)),
+                 ("let q = %s.%s" % (r[0], f), "(let (sym q) (nohint) (dot %s (sym %s)))" % (r[1], f)),
+                 ("return 1 + %s.%s" % (r[0], f), "(return (bin Add (int 1) (dot %s (sym %s))))" % (r[1], f))][i % 3]
+        second = [("(%s)" % e[0], "(paren %s)" % e[1]), ("(%s, 1)" % e[0], "(tuple %s (int 1))" % e[1])][(i // 3) % 2]
+        cases.append(("{ %s\n %s\n}" % (first[0], second[0]), "(block %s %s)" % (first[1], second[1])))
+    # directed: forms of the proved domain that the generator above does not produce (bare return followed by a statement
+    # on the next line, 0- and 1-tuples, closures with hints, if/match as operands)
+    for i in range(n // 40):
+        g = gentree.G(rng, maxd=2)
+        a, b, c = g.operand(1), g.expr(1), g.block(1)
+        cases += [
+            ("{ return\n %s\n}" % b[0], "(block (return) %s)" % b[1]),
+            ("{ if %s { return\n}\n (%s,)\n}" % (a[0], b[0]), "(block (if %s (block (return))) (tuple %s))" % (a[1], b[1])),
+            ("let t = () == (%s,)" % b[0], "(let (sym t) (nohint) (bin Equal (tuple) (tuple %s)))" % b[1]),
+            ("let f = fun(x, y: Int): List<T> %s" % c[0],
+             "(let (sym f) (nohint) (funlit (funinfo (anon) (tparams) (params (p (sym x) (nohint)) (p (sym y) (hint Int))) "
+             "(ret (hint List (hint T))) %s)))" % c[1]),
+            ("x = if %s %s else %s + %s" % (a[0], c[0], c[0], a[0]),
+             "(assign (sym x) (bin Add (if %s %s %s) %s))" % (a[1], c[1], c[1], a[1])),
+            ("%s(match %s { Aa => %s _ => %s })" % (g.pick(gentree.NAMES), a[0], c[0], c[0]),
+             None),
+        ]
+        f = cases[-1][0].split("(")[0]
+        cases[-1] = (cases[-1][0], "(call (var %s) (args (match %s (case (sym Aa) %s) (case (sym _) %s))))" % (f, a[1], c[1], c[1]))
     # whole programs too
     progs = []
     for i in range(n // 20):
@@ -46,6 +254,11 @@ def run(ctx):
     res = oracle.batch(exe, [{"op": "sexp", "src": c[0] + "\n"} for c in cases] + [{"op": "sexp", "src": p[0]} for p in progs])
     exp = [[c[1]] for c in cases] + [p[1] for p in progs]
     srcs = [c[0] for c in cases] + [p[0] for p in progs]
+    drv = ctx.model("parsefull")
+    if drv:
+        # the requests above were `src + "\n"` for items: use exactly the parsed texts
+        texts = [c[0] + "\n" for c in cases] + [p[0] for p in progs]
+        correspondence(ctx, exe, drv, rng, texts, res)
     for src, want, r in zip(srcs, exp, res):
         size = sum(w.count("(") for w in want)
         ctx.case({"src": src[:160]}, size >= 8)
